@@ -269,12 +269,20 @@ fn run_manual(case: &Value) -> Value {
                 let r = s.try_send_to(&tag.to_le_bytes(), SocketAddr::new(dst, PORT));
                 json!({"r": match r { Ok(n) => json!(n), Err(e) => json!(err_kind(&e)) }})
             }
-            "pump" => {
+            "pump" | "pump_drop" => {
+                // pump_drop key j: the guard `key` is dropped after j packets of this batch were evaluated
+                let drop_at = if name == "pump_drop" { Some((cmd[1].as_u64().unwrap(), cmd[2].as_u64().unwrap() as usize)) } else { None };
                 let mut out = Vec::new();
                 guard.egress_all(&mut out);
                 let mut outd = Vec::new();
                 let mut vs = Vec::new();
-                for p in out {
+                for (j, p) in out.into_iter().enumerate() {
+                    if let Some((key, at)) = drop_at {
+                        if j == at {
+                            let g = sh.guards.borrow_mut().remove(&key);
+                            drop(g);
+                        }
+                    }
                     let v = guard.evaluate(&p);
                     outd.push(desc(&p));
                     vs.push(verdict_json(v));
